@@ -15,7 +15,12 @@
    PART 4  plan level for ONE `sometime phi` ([tcr_sometime_plan]): frame lemmas of LayerA_DcrGoal_proofs (expressions that do
            not mention the monitoring fluent fk do not see it) + steps that fire no effect on fk ([step_with]); what the
            compiler adds to an action ([tcr_action_sometime]); one step ([step_sometime]: states agree off fk, fk' = fk or
-           phi after the step); runs ([run_sometime]); goal ([goals_sometime]); initial state ([tcr_init_sometime]). *)
+           phi after the step); runs ([run_sometime]); goal ([goals_sometime]); initial state ([tcr_init_sometime]).
+   PART 5  plan level for ONE `at-most-once phi` ([tcr_amo_plan]): [step_with2] (a compiled step with an extra precondition of
+           value X and an extra effect on fk), [tcr_action_amo], [step_amo] (the added precondition evaluates to the
+           at-most-once check of the step), [run_amo], [goals_amo], [tcr_init_amo].
+   PART 6  plan level for ONE `sometime-before phi psi` ([tcr_sb_plan]): same skeleton with two regressed formulas
+           ([tcr_action_sb], [step_sb], [run_sb], [goals_sb]). *)
 From Coq Require Import List ZArith NArith QArith Qcanon Bool Lia.
 Import ListNotations.
 Require Import UPV.Core.Expr UPV.Core.Eval UPV.Core.Interp UPV.Planning.Problem UPV.Planning.Sem.
@@ -1160,3 +1165,645 @@ Proof.
   - intros f x Hf. replace (mon 0%nat =? f)%N with false by (symmetry; apply N.eqb_neq; congruence). reflexivity.
   - rewrite N.eqb_refl. cbn [orb]. rewrite H. destruct (holds false (mk_interp P s0 []) phi); cbn; rewrite ?N.eqb_refl; reflexivity.
 Qed.
+
+(* ================================================================== PART 5: plan level, one `at-most-once` constraint *)
+Lemma gdef_B P s phi : gform phi = true -> gdef s phi = true -> exists b, B (mk_interp P s []) phi b.
+Proof.
+  induction phi using expr_ind'; intros Hg Hd; try discriminate.
+  - exists b. reflexivity.
+  - cbn [gform gdef] in *. destruct (s f (vals_of args)) as [[sf| |]|] eqn:Es; try discriminate. exists sf.
+    unfold B. rewrite eval_EFluent, (evals_oargs false _ _ Hg). exact Es.
+  - cbn [gform gdef] in *. rewrite forallb_forall in Hg, Hd.
+    assert (HF : exists bs, Forall2 (B (mk_interp P s [])) l bs).
+    { induction l as [|x l IHl]; [exists []; constructor|]. inversion H as [|? ? Hx Hl]; subst.
+      destruct (Hx (Hg x (or_introl eq_refl)) (Hd x (or_introl eq_refl))) as [b Bx].
+      destruct (IHl Hl) as [bs Bs]; try (intros y Hy; auto using in_cons). exists (b :: bs). constructor; assumption. }
+    destruct HF as [bs Bs]. eexists. apply B_EAnd, Bs.
+  - cbn [gform gdef] in *. rewrite forallb_forall in Hg, Hd.
+    assert (HF : exists bs, Forall2 (B (mk_interp P s [])) l bs).
+    { induction l as [|x l IHl]; [exists []; constructor|]. inversion H as [|? ? Hx Hl]; subst.
+      destruct (Hx (Hg x (or_introl eq_refl)) (Hd x (or_introl eq_refl))) as [b Bx].
+      destruct (IHl Hl) as [bs Bs]; try (intros y Hy; auto using in_cons). exists (b :: bs). constructor; assumption. }
+    destruct HF as [bs Bs]. eexists. apply B_EOr, Bs.
+  - cbn [gform gdef] in *. destruct (IHphi Hg Hd) as [b Bx]. eexists. apply B_ENot, Bx.
+Qed.
+
+(* what the evaluation of the added effect `if Rc then fk := true` yields *)
+Definition fire_of (v : option value) : option bool :=
+  match v with Some (VBool true) => Some true | Some _ => Some false | None => None end.
+
+Lemma fired_meff fk I' effs Rc :
+  fired false I' (effs ++ [meff fk true Rc]) =
+  match collect_res (eres_list false I' effs) with
+  | Some acts => match fire_of (eval false Rc I') with
+                 | Some true => Some (acts ++ [xact fk true]) | Some false => Some acts | None => None end
+  | None => None
+  end.
+Proof.
+  unfold fired. rewrite flat_map_app, collect_res_app2. fold (eres_list false I' effs).
+  destruct (collect_res (eres_list false I' effs)) as [acts|]; [|reflexivity].
+  unfold meff. cbn [flat_map e_vars instances map app]. unfold eval_effect. cbn [e_args e_cond e_val e_fl e_kind evals_l].
+  destruct (eval false Rc I') as [[[|]| |]|]; cbn [eval collect_res fire_of]; rewrite ?app_nil_r; reflexivity.
+Qed.
+
+Lemma fired_plain I' effs :
+  fired false I' (effs ++ []) =
+  match collect_res (eres_list false I' effs) with Some acts => Some acts | None => None end.
+Proof. rewrite app_nil_r. unfold fired, eres_list. destruct (collect_res _); reflexivity. Qed.
+
+Section GuardedStep.
+  Variable fk : N.
+  Variables P P' : problem.
+  Hypothesis Ho : p_objs P' = p_objs P.
+  Hypothesis Hi : p_ifun P' = p_ifun P.
+  Hypothesis Hfl : p_fluents P' = p_fluents P ++ [fk_decl fk].
+  Hypothesis Hv : p_invs P' = p_invs P.
+  Hypothesis Hinvc : forallb (cleanf fk) (p_invs P ++ bound_invs P) = true.
+
+  (* the compiled action = the original one + a precondition whose value is X + possibly the effect fk := true, whose
+     evaluation yields [fire] (None = it cannot be evaluated) *)
+  Lemma step_with2 a a' args s s' (X : bool) (fire : option bool) :
+    agree_off fk s s' -> action_cleanf fk a = true -> a_params a' = a_params a ->
+    all_hold false (mk_interp P' s' (zip_params (a_params a) args)) (a_pre a') =
+      all_hold false (mk_interp P' s' (zip_params (a_params a) args)) (a_pre a) && X ->
+    fired false (mk_interp P' s' (zip_params (a_params a) args)) (a_effs a') =
+      match collect_res (eres_list false (mk_interp P' s' (zip_params (a_params a) args)) (a_effs a)) with
+      | Some acts => match fire with
+                     | Some true => Some (acts ++ [xact fk true]) | Some false => Some acts | None => None end
+      | None => None
+      end ->
+    match spec_step false P s a args, spec_step false P' s' a' args with
+    | Some t, Some t' => X = true /\ agree_off fk t t' /\
+                         match fire with
+                         | Some true => t' fk [] = Some (VBool true) | Some false => t' fk [] = s' fk [] | None => False
+                         end
+    | Some t, None => X = false \/ fire = None
+    | None, None => True
+    | None, Some _ => False
+    end.
+  Proof.
+    intros Hs Hc Hp Hpre Hfi. unfold action_cleanf in Hc. apply andb_true_iff in Hc. destruct Hc as [Hc1 Hc2].
+    rewrite !spec_step_eq. rewrite Hp, Hpre, Hfi.
+    pose proof (mk_irel fk P P' Ho Hi s s' (zip_params (a_params a) args) Hs) as HR.
+    rewrite (all_hold_cleanf fk false _ _ (a_pre a) HR Hc1).
+    rewrite (eres_list_cleanf fk false _ _ (a_effs a) HR Hc2).
+    change (fired false (mk_interp P s (zip_params (a_params a) args)) (a_effs a))
+      with (collect_res (eres_list false (mk_interp P s (zip_params (a_params a) args)) (a_effs a))).
+    destruct (all_hold false (mk_interp P s (zip_params (a_params a) args)) (a_pre a)); cbn [andb negb]; [|exact I].
+    destruct (collect_res (eres_list false (mk_interp P s (zip_params (a_params a) args)) (a_effs a))) as [acts|] eqn:EF.
+    2:{ destruct X; exact I. }
+    assert (Hn : no_fk fk acts) by (eapply fired_nofk; eassumption).
+    destruct X; cbn [negb].
+    2:{ destruct (negb (spec_effects_ok P s acts)); [exact I|].
+        destruct (invariants_ok false P (spec_succ P s acts)); [left; reflexivity | exact I]. }
+    destruct fire as [[|]|].
+    - rewrite (effects_ok_extra fk P P' Hfl s s' acts true Hs Hn).
+      destruct (negb (spec_effects_ok P s acts)); [exact I|].
+      destruct (succ_extra fk P P' Hfl s s' acts true Hs Hn) as [Ha Hb].
+      rewrite (invariants_cleanf fk P P' Ho Hi Hfl Hv Hinvc _ _ Ha).
+      destruct (invariants_ok false P (spec_succ P s acts)); [repeat split; assumption | exact I].
+    - rewrite (effects_ok0 fk P P' Hfl s s' acts Hs Hn).
+      destruct (negb (spec_effects_ok P s acts)); [exact I|].
+      destruct (succ0 fk P P' Hfl s s' acts Hs Hn) as [Ha Hb].
+      rewrite (invariants_cleanf fk P P' Ho Hi Hfl Hv Hinvc _ _ Ha).
+      destruct (invariants_ok false P (spec_succ P s acts)); [repeat split; assumption | exact I].
+    - destruct (negb (spec_effects_ok P s acts)); [exact I|].
+      destruct (invariants_ok false P (spec_succ P s acts)); [right; reflexivity | exact I].
+  Qed.
+End GuardedStep.
+
+Section AmoPlan.
+  Variable smp sub0 : expr -> expr.
+  Variable mon : nat -> N.
+  Variable phi : expr.
+  Variable P : problem.
+  Variable G : state -> Prop.
+  Let c := EAtMostOnce phi.
+  Let fk := mon 0.
+
+  Hypothesis Hsmp : smp_exact smp.
+  Hypothesis Huniq : unique_ids P.
+  Hypothesis Hgp : gproblem P = true.
+  Hypothesis Hgf : gform phi = true.
+  Hypothesis Hgb : gbool P phi = true.
+  Hypothesis Hfresh : tcr_fresh1 smp fk P phi = true.
+  Hypothesis Gstep : forall s aid a args t, G s -> lookup_action P aid = Some a -> spec_step false P s a args = Some t -> G t.
+  Hypothesis Greg : forall s aid a, G s -> lookup_action P aid = Some a -> reg_ok P s a = true.
+  Hypothesis Gdef : forall s, G s -> gdef s phi = true.
+
+  Let AO : always_only P [EAlways phi] = true.
+  Proof. unfold always_only. cbn [forallb]. rewrite Hgf, Hgb. reflexivity. Qed.
+  Let GdefA : forall s x, G s -> In (EAlways x) [EAlways phi] -> gdef s x = true.
+  Proof. intros s x Gs [H|[]]. inversion H; subst. apply Gdef, Gs. Qed.
+
+  Lemma atom_idx_amo : atom_idx [c] c = 0.
+  Proof. unfold atom_idx, c. cbn [atoms_from is_always rev app find fst snd]. rewrite expr_eqb_refl. reflexivity. Qed.
+
+  (* rho = simplify(Or(Not(R), Not(m_atom), phi)) *)
+  Definition rho (a : action) : expr := smp (mkOr [mkNot (R smp a phi); mkNot (EFluent fk []); phi]).
+
+  Lemma tcr_action_amo a : exists pres E,
+    tcr_action smp mon [c] a =
+      (if existsb is_false pres then None
+       else Some {| a_params := a_params a; a_pre := pres; a_effs := a_effs a ++ E |}) /\
+    ((pres = a_pre a /\ E = [] /\ ((forall e, In e (a_effs a) -> mentions c e = false) \/ R smp a phi = phi)) \/
+     (pres = add_pre (a_pre a) (rho a) /\
+      ((E = [] /\ is_false (smp (R smp a phi)) = true) \/ E = [meff fk true (R smp a phi)]))).
+  Proof.
+    unfold tcr_action.
+    assert (Hall : forall x, In x (flat_map (fun e => filter (fun c0 => mentions c0 e) [c]) (a_effs a)) -> x = c).
+    { intros x Hx. apply in_flat_map in Hx. destruct Hx as [e [_ Hx]]. apply filter_In in Hx. destruct Hx as [[<-|[]] _]. reflexivity. }
+    destruct (dedup_single c _ Hall) as [_ [E0|E1]]; unfold relevant_cs.
+    - rewrite E0. cbn [handle_all]. exists (a_pre a), []. split; [reflexivity|]. left. split; [reflexivity|]. split; [reflexivity|]. left.
+      intros e He. destruct (mentions c e) eqn:Em; [|reflexivity]. exfalso.
+      assert (Hin : In c (dedup_acc [] (flat_map (fun e => filter (fun c0 => mentions c0 e) [c]) (a_effs a)))).
+      { apply dedup_acc_in. right. apply in_flat_map. exists e. split; [exact He|]. cbn [filter]. rewrite Em. left; reflexivity. }
+      rewrite E0 in Hin. destruct Hin.
+    - rewrite E1. cbn [handle_all]. unfold c at 2. cbn [handle]. fold c. rewrite atom_idx_amo. fold fk. unfold h_amo.
+      destruct (expr_eqb (R smp a phi) phi) eqn:Er.
+      + exists (a_pre a), []. split; [reflexivity|]. left. split; [reflexivity|]. split; [reflexivity|]. right. apply expr_eqb_eq, Er.
+      + fold (rho a). unfold add_cond_eff. destruct (is_false (smp (R smp a phi))) eqn:Ef.
+        * exists (add_pre (a_pre a) (rho a)), []. split; [reflexivity|]. right. split; [reflexivity|]. left. split; [reflexivity | first [exact Ef | reflexivity]].
+        * exists (add_pre (a_pre a) (rho a)), [meff fk true (R smp a phi)]. split; [reflexivity|]. right. split; [reflexivity|]. right. reflexivity.
+  Qed.
+
+  Lemma fresh_parts_amo :
+    (forall aid a, lookup_action P aid = Some a -> action_cleanf fk a = true /\ cleanf fk (R smp a phi) = true) /\
+    forallb (cleanf fk) (p_invs P ++ bound_invs P) = true /\ forallb (cleanf fk) (p_goals P) = true /\ cleanf fk phi = true.
+  Proof.
+    unfold tcr_fresh1 in Hfresh. apply andb_true_iff in Hfresh. destruct Hfresh as [H H4].
+    apply andb_true_iff in H. destruct H as [H H3]. apply andb_true_iff in H. destruct H as [H1 H2].
+    repeat split; try assumption; intros; rewrite forallb_forall in H1; unfold lookup_action in *;
+      match goal with Hl : lookupN _ _ = Some _ |- _ => apply lookupN_In in Hl; specialize (H1 _ Hl); cbn [snd] in H1;
+        apply andb_true_iff in H1; destruct H1; assumption end.
+  Qed.
+
+  Variable P' : problem.
+  Hypothesis Hcomp : tcr_compile smp sub0 mon [c] P = Some P'.
+
+  Lemma P'_eq_amo : p_objs P' = p_objs P /\ p_ifun P' = p_ifun P /\ p_fluents P' = p_fluents P ++ [fk_decl fk] /\
+    p_invs P' = p_invs P /\ p_actions P' = map_actions (tcr_action smp mon [c]) (p_actions P) /\
+    p_goals P' = add_goals [smp (mkAnd (p_goals P ++ [EBool true]))].
+  Proof.
+    unfold tcr_compile in Hcomp. cbn [existsb refused c orb] in Hcomp. inversion Hcomp; subst P'. cbn.
+    repeat split; reflexivity.
+  Qed.
+
+  Lemma step_amo s s' aid a args m : G s -> agree_off fk s s' -> s' fk [] = Some (VBool m) ->
+    (holds false (mk_interp P s []) phi = true -> m = true) ->
+    lookup_action P aid = Some a ->
+    match spec_step false P s a args,
+          match lookup_action P' aid with Some a' => spec_step false P' s' a' args | None => None end with
+    | Some t, Some t' =>
+        negb (holds false (mk_interp P t []) phi) || negb m || holds false (mk_interp P s []) phi = true /\
+        agree_off fk t t' /\ t' fk [] = Some (VBool (m || holds false (mk_interp P t []) phi))
+    | Some t, None => negb (holds false (mk_interp P t []) phi) || negb m || holds false (mk_interp P s []) phi = false
+    | None, None => True
+    | None, Some _ => False
+    end.
+  Proof.
+    intros Gs Hs Hm Hinv Hlk. destruct P'_eq_amo as (Ho & Hi & Hfl & Hv & Ha & _).
+    destruct fresh_parts_amo as (Hfa & Hfi & _ & Hfp). destruct (Hfa aid a Hlk) as [Hca HcR].
+    unfold lookup_action in *. rewrite Ha, (lookup_map_actions _ _ _ Huniq), Hlk.
+    destruct (tcr_action_amo a) as [pres [E [-> HE]]].
+    assert (Hpa : a_params a = []) by (apply (a_params_nil P Hgp aid a); exact Hlk).
+    set (I' := mk_interp P' s' (zip_params (a_params a) args)).
+    pose proof (mk_irel fk P P' Ho Hi s s' (zip_params (a_params a) args) Hs) as HR. fold I' in HR.
+    assert (HK : forall t, spec_step false P s a args = Some t ->
+               eval false (R smp a phi) (mk_interp P s []) = Some (VBool (holds false (mk_interp P t []) phi))).
+    { intros t Hst.
+      destruct (regression_step P s a args t phi (a_ground P Hgp aid a Hlk) (Greg s aid a Gs Hlk) Hst Hgf Hgb (Gdef s Gs))
+        as (Ev & _ & D).
+      unfold R. rewrite Hsmp, Ev. unfold isB in D. unfold holds.
+      destruct (eval false phi (mk_interp P t [])) as [[[|]| |]|]; try discriminate; reflexivity. }
+    destruct (gdef_B P s phi Hgf (Gdef s Gs)) as [ps Bps].
+    assert (Eps : holds false (mk_interp P s []) phi = ps) by (apply B_holds; exact Bps).
+    assert (EI : mk_interp P s (zip_params (a_params a) args) = mk_interp P s []) by (rewrite Hpa; reflexivity).
+    set (a' := {| a_params := a_params a; a_pre := pres; a_effs := a_effs a ++ E |}).
+    (* X: the value of the added precondition; fire: the result of the added effect *)
+    assert (Hcore : exists X fire,
+      all_hold false I' pres = all_hold false I' (a_pre a) && X /\
+      fired false I' (a_effs a ++ E) =
+        match collect_res (eres_list false I' (a_effs a)) with
+        | Some acts => match fire with Some true => Some (acts ++ [xact fk true]) | Some false => Some acts | None => None end
+        | None => None end /\
+      forall t, spec_step false P s a args = Some t ->
+        X = (negb (holds false (mk_interp P t []) phi) || negb m || ps) /\
+        (X = true -> fire = Some (holds false (mk_interp P t []) phi) \/
+                     (fire = Some false /\ (holds false (mk_interp P t []) phi = true -> m = true)))).
+    { destruct HE as [(-> & -> & Hreason) | (-> & HE)].
+      - exists true, (Some false). split; [rewrite andb_true_r; reflexivity|]. split; [apply fired_plain|].
+        intros t Hst.
+        assert (Ept : holds false (mk_interp P t []) phi = ps).
+        { destruct Hreason as [Hirr | Heq].
+          - rewrite <- Eps. apply (K2 [EAlways phi] P G Hgp AO Greg GdefA s t aid a args Gs Hlk Hst phi (or_introl eq_refl)). exact Hirr.
+          - pose proof (HK t Hst) as Hk. rewrite Heq in Hk. unfold B in Bps. rewrite Bps in Hk. inversion Hk. reflexivity. }
+        split.
+        + rewrite Ept. destruct ps, m; reflexivity.
+        + intros _. right. split; [reflexivity|]. intros Ht. apply Hinv. rewrite Eps, <- Ept. exact Ht.
+      - (* the precondition rho is added *)
+        assert (HX : forall t, spec_step false P s a args = Some t ->
+                  holds false I' (rho a) = negb (holds false (mk_interp P t []) phi) || negb m || ps).
+        { intros t Hst. unfold rho. unfold holds at 1. rewrite Hsmp.
+          assert (B1 : B I' (R smp a phi) (holds false (mk_interp P t []) phi)).
+          { unfold B. rewrite (eval_cleanf fk false _ _ _ HR HcR), EI. apply HK, Hst. }
+          assert (B2 : B I' (EFluent fk []) m).
+          { unfold B. rewrite eval_EFluent. cbn [evals]. unfold I'. cbn [mk_interp fl]. exact Hm. }
+          assert (B3 : B I' phi ps).
+          { unfold B. rewrite (eval_cleanf fk false _ _ _ HR Hfp), EI. exact Bps. }
+          pose proof (B_mkOr I' _ _ (Forall2_cons _ _ (B_mkNot _ _ _ B1)
+                       (Forall2_cons _ _ (B_mkNot _ _ _ B2) (Forall2_cons _ _ B3 (Forall2_nil _))))) as Bo.
+          unfold B in Bo. rewrite Bo. cbn [existsb]. rewrite orb_false_r, orb_assoc.
+          destruct (negb (holds false (mk_interp P t []) phi) || negb m || ps); reflexivity. }
+        destruct HE as [[-> Hfalse] | ->].
+        + exists (holds false I' (rho a)), (Some false). split; [apply all_hold_add_pre|]. split; [apply fired_plain|].
+          intros t Hst. split; [apply HX, Hst|]. intros _. right. split; [reflexivity|]. intros Ht. exfalso.
+          pose proof (HK t Hst) as Hk. rewrite <- (Hsmp (R smp a phi)) in Hk.
+          destruct (smp (R smp a phi)); try discriminate. destruct b; try discriminate. cbn [eval] in Hk. rewrite Ht in Hk. discriminate.
+        + exists (holds false I' (rho a)), (fire_of (eval false (R smp a phi) I')).
+          split; [apply all_hold_add_pre|]. split; [apply fired_meff|].
+          intros t Hst. split; [apply HX, Hst|]. intros _. left.
+          rewrite (eval_cleanf fk false _ _ _ HR HcR), EI, (HK t Hst).
+          destruct (holds false (mk_interp P t []) phi); reflexivity. }
+    destruct Hcore as (X & fire & HpX & HfX & Hsem).
+    pose proof (step_with2 fk P P' Ho Hi Hfl Hv Hfi a a' args s s' X fire Hs Hca eq_refl HpX HfX) as Hst.
+    rewrite Eps.
+    destruct (spec_step false P s a args) as [t|] eqn:Est.
+    - destruct (Hsem t eq_refl) as [HXe Hfire].
+      destruct (existsb is_false pres) eqn:Efp.
+      { (* the action was left out: its preconditions contain FALSE, so X is false *)
+        rewrite <- HXe. apply existsb_exists in Efp. destruct Efp as [x [Hx Fx]].
+        assert (Hnp : all_hold false I' pres = false).
+        { destruct (all_hold false I' pres) eqn:Eh; [|reflexivity].
+          pose proof (all_hold_In false _ _ x Eh Hx) as Hxx. destruct x; try discriminate. destruct b; discriminate. }
+        rewrite HpX in Hnp.
+        assert (Hpre : all_hold false I' (a_pre a) = true).
+        { unfold action_cleanf in Hca. apply andb_true_iff in Hca. destruct Hca as [Hc1 _].
+          rewrite (all_hold_cleanf fk false _ _ (a_pre a) HR Hc1). rewrite spec_step_eq in Est.
+          destruct (all_hold false (mk_interp P s (zip_params (a_params a) args)) (a_pre a)); [reflexivity | discriminate]. }
+        rewrite Hpre in Hnp. exact Hnp. }
+      fold a'. destruct (spec_step false P' s' a' args) as [t'|].
+      + destruct Hst as (HX1 & Hag & Hfk). rewrite <- HXe. split; [exact HX1|]. split; [exact Hag|].
+        destruct (Hfire HX1) as [-> | [-> Him]].
+        * destruct (holds false (mk_interp P t []) phi); [rewrite Hfk, orb_true_r; reflexivity | rewrite Hfk, Hm, orb_false_r; reflexivity].
+        * rewrite Hfk, Hm. destruct (holds false (mk_interp P t []) phi); [rewrite (Him eq_refl); reflexivity | rewrite orb_false_r; reflexivity].
+      + rewrite <- HXe. destruct Hst as [HX0 | Hn]; [exact HX0|].
+        destruct X; [|reflexivity]. destruct (Hfire eq_refl) as [Hf | [Hf _]]; rewrite Hf in Hn; discriminate.
+    - destruct (existsb is_false pres); [exact I|]. fold a'. exact Hst.
+  Qed.
+
+  Lemma lookup_none_amo aid : lookup_action P aid = None -> lookup_action P' aid = None.
+  Proof.
+    intros H. destruct P'_eq_amo as (_ & _ & _ & _ & Ha & _). unfold lookup_action in *.
+    rewrite Ha, (lookup_map_actions _ _ _ Huniq), H. reflexivity.
+  Qed.
+
+  Lemma run_amo pi : forall s s' m, G s -> agree_off fk s s' -> s' fk [] = Some (VBool m) ->
+    (holds false (mk_interp P s []) phi = true -> m = true) ->
+    match run P (spec_step false P) s pi, run P' (spec_step false P') s' pi with
+    | Some t, Some t' => amo_chk P phi m s pi = true /\ agree_off fk t t'
+    | Some t, None => amo_chk P phi m s pi = false
+    | None, None => True
+    | None, Some _ => False
+    end.
+  Proof.
+    induction pi as [|[aid args] r IH]; intros s s' m Gs Hs Hm Hinv.
+    - cbn [run amo_chk]. split; [reflexivity | exact Hs].
+    - cbn [run amo_chk].
+      destruct (lookup_action P aid) as [a|] eqn:Hlk; [|rewrite (lookup_none_amo aid Hlk); exact I].
+      pose proof (step_amo s s' aid a args m Gs Hs Hm Hinv Hlk) as Hst.
+      destruct (spec_step false P s a args) as [t|] eqn:Est.
+      + destruct (lookup_action P' aid) as [a'|].
+        * destruct (spec_step false P' s' a' args) as [t'|].
+          -- destruct Hst as (Hc & H1 & H2). rewrite Hc. cbn [andb].
+             assert (Hinv' : holds false (mk_interp P t []) phi = true -> m || holds false (mk_interp P t []) phi = true)
+               by (intros ->; apply orb_true_r).
+             exact (IH t t' _ (Gstep s aid a args t Gs Hlk Est) H1 H2 Hinv').
+          -- rewrite Hst. cbn [andb]. destruct (run P (spec_step false P) t r); [reflexivity | exact I].
+        * rewrite Hst. cbn [andb]. destruct (run P (spec_step false P) t r); [reflexivity | exact I].
+      + destruct (lookup_action P' aid) as [a'|]; [|exact I]. destruct (spec_step false P' s' a' args); [destruct Hst | exact I].
+  Qed.
+
+  Lemma goals_amo t t' : agree_off fk t t' -> goals_hold false P' t' = goals_hold false P t.
+  Proof.
+    intros Ht. destruct P'_eq_amo as (Ho & Hi & _ & _ & _ & Hg). destruct fresh_parts_amo as (_ & _ & Hfg & _).
+    unfold goals_hold. rewrite Hg. unfold add_goals. cbn [filter].
+    assert (E : holds false (mk_interp P' t' []) (smp (mkAnd (p_goals P ++ [EBool true]))) =
+                all_hold false (mk_interp P t []) (p_goals P)).
+    { unfold holds at 1. rewrite Hsmp. fold (holds false (mk_interp P' t' []) (mkAnd (p_goals P ++ [EBool true]))).
+      rewrite holds_mkAnd. unfold all_hold at 1. rewrite forallb_app. cbn [forallb holds eval]. rewrite andb_true_r.
+      fold (all_hold false (mk_interp P' t' []) (p_goals P)).
+      apply (all_hold_cleanf fk false _ _ (p_goals P) (mk_irel fk P P' Ho Hi t t' [] Ht) Hfg). }
+    destruct (is_true (smp (mkAnd (p_goals P ++ [EBool true])))) eqn:Et; cbn [negb].
+    - rewrite <- E, (holds_true false _ _ Et). reflexivity.
+    - unfold all_hold at 1. cbn [forallb]. rewrite andb_true_r. exact E.
+  Qed.
+
+  (* PLAN LEVEL, one `at-most-once phi`: the compiled problem accepts exactly the valid plans of the original problem
+     every step of which passes the at-most-once check *)
+  Theorem tcr_amo_plan s0 s0' pi : G s0 -> agree_off fk s0 s0' ->
+    s0' fk [] = Some (VBool (holds false (mk_interp P s0 []) phi)) ->
+    valid_plan false P' s0' pi =
+    valid_plan false P s0 pi && amo_chk P phi (holds false (mk_interp P s0 []) phi) s0 pi.
+  Proof.
+    intros G0 H0 Hm. unfold valid_plan.
+    pose proof (run_amo pi s0 s0' _ G0 H0 Hm (fun H => H)) as HR.
+    destruct (run P (spec_step false P) s0 pi) as [t|], (run P' (spec_step false P') s0' pi) as [t'|].
+    - destruct HR as [Hc Hag]. rewrite Hc, andb_true_r. apply goals_amo, Hag.
+    - rewrite HR, andb_false_r. reflexivity.
+    - destruct HR.
+    - reflexivity.
+  Qed.
+End AmoPlan.
+
+Lemma tcr_init_amo smp sub0 mon phi P s0 :
+  is_true (smp (sub0 phi)) = holds false (mk_interp P s0 []) phi ->
+  agree_off (mon 0) s0 (tcr_init smp sub0 mon [EAtMostOnce phi] s0) /\
+  tcr_init smp sub0 mon [EAtMostOnce phi] s0 (mon 0) [] = Some (VBool (holds false (mk_interp P s0 []) phi)).
+Proof.
+  intros H. unfold tcr_init, n_atoms, init_true. cbn [atoms_from is_always length seq existsb flat_map fst snd init_expr app].
+  split.
+  - intros f x Hf. replace (mon 0%nat =? f)%N with false by (symmetry; apply N.eqb_neq; congruence). reflexivity.
+  - rewrite N.eqb_refl. cbn [orb]. rewrite H. destruct (holds false (mk_interp P s0 []) phi); cbn; rewrite ?N.eqb_refl; reflexivity.
+Qed.
+
+(* ================================================================== PART 6: plan level, one `sometime-before` constraint *)
+Section SbPlan.
+  Variable smp sub0 : expr -> expr.
+  Variable mon : nat -> N.
+  Variables phi psi : expr.
+  Variable P : problem.
+  Variable G : state -> Prop.
+  Let c := ESometimeBefore phi psi.
+  Let fk := mon 0.
+
+  Hypothesis Hsmp : smp_exact smp.
+  Hypothesis Huniq : unique_ids P.
+  Hypothesis Hgp : gproblem P = true.
+  Hypothesis Hgf : gform phi = true.
+  Hypothesis Hgb : gbool P phi = true.
+  Hypothesis Hgf2 : gform psi = true.
+  Hypothesis Hgb2 : gbool P psi = true.
+  Hypothesis Hfresh : tcr_fresh1 smp fk P phi = true.
+  Hypothesis Hfresh2 : tcr_fresh1 smp fk P psi = true.
+  Hypothesis Gstep : forall s aid a args t, G s -> lookup_action P aid = Some a -> spec_step false P s a args = Some t -> G t.
+  Hypothesis Greg : forall s aid a, G s -> lookup_action P aid = Some a -> reg_ok P s a = true.
+  Hypothesis Gdef : forall s, G s -> gdef s phi = true.
+  Hypothesis Gdef2 : forall s, G s -> gdef s psi = true.
+
+  Let AO1 : always_only P [EAlways phi] = true.
+  Proof. unfold always_only. cbn [forallb]. rewrite Hgf, Hgb. reflexivity. Qed.
+  Let AO2 : always_only P [EAlways psi] = true.
+  Proof. unfold always_only. cbn [forallb]. rewrite Hgf2, Hgb2. reflexivity. Qed.
+  Let GdefA1 : forall s x, G s -> In (EAlways x) [EAlways phi] -> gdef s x = true.
+  Proof. intros s x Gs [H|[]]. inversion H; subst. apply Gdef, Gs. Qed.
+  Let GdefA2 : forall s x, G s -> In (EAlways x) [EAlways psi] -> gdef s x = true.
+  Proof. intros s x Gs [H|[]]. inversion H; subst. apply Gdef2, Gs. Qed.
+
+  Lemma atom_idx_sb : atom_idx [c] c = 0.
+  Proof. unfold atom_idx, c. cbn [atoms_from is_always rev app find fst snd]. rewrite !expr_eqb_refl. reflexivity. Qed.
+
+  (* rho = simplify(Or(Not(R_phi), m_atom)) *)
+  Definition rho_sb (a : action) : expr := smp (mkOr [mkNot (R smp a phi); EFluent fk []]).
+  Definition irrelevant (a : action) : Prop := forall e, In e (a_effs a) -> mentions c e = false.
+
+  Lemma irrelevant_parts a : irrelevant a ->
+    (forall e, In e (a_effs a) -> mentions (EAlways phi) e = false) /\
+    (forall e, In e (a_effs a) -> mentions (EAlways psi) e = false).
+  Proof.
+    intros H. split; intros e He; specialize (H e He); unfold mentions in *; cbn [fluent_exps c] in *;
+      rewrite existsb_app in H; apply orb_false_iff in H; tauto.
+  Qed.
+
+  Lemma tcr_action_sb a : exists pres E,
+    tcr_action smp mon [c] a =
+      (if existsb is_false pres then None
+       else Some {| a_params := a_params a; a_pre := pres; a_effs := a_effs a ++ E |}) /\
+    ((pres = a_pre a /\ (irrelevant a \/ R smp a phi = phi)) \/ pres = add_pre (a_pre a) (rho_sb a)) /\
+    ((E = [] /\ (irrelevant a \/ R smp a psi = psi \/ is_false (smp (R smp a psi)) = true)) \/
+     E = [meff fk true (R smp a psi)]).
+  Proof.
+    unfold tcr_action.
+    assert (Hall : forall x, In x (flat_map (fun e => filter (fun c0 => mentions c0 e) [c]) (a_effs a)) -> x = c).
+    { intros x Hx. apply in_flat_map in Hx. destruct Hx as [e [_ Hx]]. apply filter_In in Hx. destruct Hx as [[<-|[]] _]. reflexivity. }
+    destruct (dedup_single c _ Hall) as [_ [E0|E1]]; unfold relevant_cs.
+    - assert (Hirr : irrelevant a).
+      { intros e He. destruct (mentions c e) eqn:Em; [|reflexivity]. exfalso.
+        assert (Hin : In c (dedup_acc [] (flat_map (fun e => filter (fun c0 => mentions c0 e) [c]) (a_effs a)))).
+        { apply dedup_acc_in. right. apply in_flat_map. exists e. split; [exact He|]. cbn [filter]. rewrite Em. left; reflexivity. }
+        rewrite E0 in Hin. destruct Hin. }
+      rewrite E0. cbn [handle_all]. exists (a_pre a), []. split; [reflexivity|]. split; [left; split; [reflexivity | left; exact Hirr]|].
+      left. split; [reflexivity | left; exact Hirr].
+    - rewrite E1. cbn [handle_all]. unfold c at 2. cbn [handle]. fold c. rewrite atom_idx_sb. fold fk. unfold h_sb. fold (rho_sb a).
+      destruct (expr_eqb (R smp a phi) phi) eqn:Er1; destruct (expr_eqb (R smp a psi) psi) eqn:Er2;
+        try (apply expr_eqb_eq in Er1); try (apply expr_eqb_eq in Er2).
+      + exists (a_pre a), []. split; [reflexivity|]. split; [left; split; [reflexivity | right; exact Er1]|].
+        left. split; [reflexivity | right; left; exact Er2].
+      + unfold add_cond_eff. destruct (is_false (smp (R smp a psi))) eqn:Ef.
+        * exists (a_pre a), []. split; [reflexivity|]. split; [left; split; [reflexivity | right; exact Er1]|].
+          left. split; [reflexivity | right; right; first [exact Ef | reflexivity]].
+        * exists (a_pre a), [meff fk true (R smp a psi)]. split; [reflexivity|]. split; [left; split; [reflexivity | right; exact Er1]|].
+          right. reflexivity.
+      + exists (add_pre (a_pre a) (rho_sb a)), []. split; [reflexivity|]. split; [right; reflexivity|].
+        left. split; [reflexivity | right; left; exact Er2].
+      + unfold add_cond_eff. destruct (is_false (smp (R smp a psi))) eqn:Ef.
+        * exists (add_pre (a_pre a) (rho_sb a)), []. split; [reflexivity|]. split; [right; reflexivity|].
+          left. split; [reflexivity | right; right; first [exact Ef | reflexivity]].
+        * exists (add_pre (a_pre a) (rho_sb a)), [meff fk true (R smp a psi)]. split; [reflexivity|]. split; [right; reflexivity|].
+          right. reflexivity.
+  Qed.
+
+  Lemma fresh_parts_sb (x : expr) : tcr_fresh1 smp fk P x = true ->
+    (forall aid a, lookup_action P aid = Some a -> action_cleanf fk a = true /\ cleanf fk (R smp a x) = true) /\
+    forallb (cleanf fk) (p_invs P ++ bound_invs P) = true /\ forallb (cleanf fk) (p_goals P) = true /\ cleanf fk x = true.
+  Proof.
+    intros Hfr. unfold tcr_fresh1 in Hfr. apply andb_true_iff in Hfr. destruct Hfr as [H H4].
+    apply andb_true_iff in H. destruct H as [H H3]. apply andb_true_iff in H. destruct H as [H1 H2].
+    repeat split; try assumption; intros; rewrite forallb_forall in H1; unfold lookup_action in *;
+      match goal with Hl : lookupN _ _ = Some _ |- _ => apply lookupN_In in Hl; specialize (H1 _ Hl); cbn [snd] in H1;
+        apply andb_true_iff in H1; destruct H1; assumption end.
+  Qed.
+
+  Variable P' : problem.
+  Hypothesis Hcomp : tcr_compile smp sub0 mon [c] P = Some P'.
+
+  Lemma P'_eq_sb : p_objs P' = p_objs P /\ p_ifun P' = p_ifun P /\ p_fluents P' = p_fluents P ++ [fk_decl fk] /\
+    p_invs P' = p_invs P /\ p_actions P' = map_actions (tcr_action smp mon [c]) (p_actions P) /\
+    p_goals P' = add_goals [smp (mkAnd (p_goals P ++ [EBool true]))].
+  Proof.
+    unfold tcr_compile in Hcomp. destruct (existsb (refused smp sub0) [c]); [discriminate|]. inversion Hcomp; subst P'. cbn.
+    repeat split; reflexivity.
+  Qed.
+
+  (* value and definedness of a regressed formula when the original step exists *)
+  Lemma HK_gen x s aid a args t : gform x = true -> gbool P x = true -> (forall s, G s -> gdef s x = true) ->
+    G s -> lookup_action P aid = Some a -> spec_step false P s a args = Some t ->
+    eval false (R smp a x) (mk_interp P s []) = Some (VBool (holds false (mk_interp P t []) x)).
+  Proof.
+    intros Hg Hb Hd Gs Hlk Hst.
+    destruct (regression_step P s a args t x (a_ground P Hgp aid a Hlk) (Greg s aid a Gs Hlk) Hst Hg Hb (Hd s Gs))
+      as (Ev & _ & D).
+    unfold R. rewrite Hsmp, Ev. unfold isB in D. unfold holds.
+    destruct (eval false x (mk_interp P t [])) as [[[|]| |]|]; try discriminate; reflexivity.
+  Qed.
+
+  Lemma step_sb s s' aid a args m : G s -> agree_off fk s s' -> s' fk [] = Some (VBool m) ->
+    (holds false (mk_interp P s []) psi = true -> m = true) ->
+    (holds false (mk_interp P s []) phi = true -> m = true) ->
+    lookup_action P aid = Some a ->
+    match spec_step false P s a args,
+          match lookup_action P' aid with Some a' => spec_step false P' s' a' args | None => None end with
+    | Some t, Some t' =>
+        negb (holds false (mk_interp P t []) phi) || m = true /\
+        agree_off fk t t' /\ t' fk [] = Some (VBool (m || holds false (mk_interp P t []) psi))
+    | Some t, None => negb (holds false (mk_interp P t []) phi) || m = false
+    | None, None => True
+    | None, Some _ => False
+    end.
+  Proof.
+    intros Gs Hs Hm Hinv1 Hinv2 Hlk. destruct P'_eq_sb as (Ho & Hi & Hfl & Hv & Ha & _).
+    destruct (fresh_parts_sb phi Hfresh) as (Hfa & Hfi & _ & Hfp). destruct (Hfa aid a Hlk) as [Hca HcR].
+    destruct (fresh_parts_sb psi Hfresh2) as (Hfa2 & _ & _ & _). destruct (Hfa2 aid a Hlk) as [_ HcR2].
+    pose proof (HK_gen phi s aid a args) as HK1. pose proof (HK_gen psi s aid a args) as HK2.
+    assert (Hpa : a_params a = []) by (apply (a_params_nil P Hgp aid a); exact Hlk).
+    pose proof (K2 [EAlways phi] P G Hgp AO1 Greg GdefA1 s) as K2a.
+    pose proof (K2 [EAlways psi] P G Hgp AO2 Greg GdefA2 s) as K2b.
+    unfold lookup_action in *. rewrite Ha, (lookup_map_actions _ _ _ Huniq), Hlk.
+    destruct (tcr_action_sb a) as [pres [E [-> [Hpres HEf]]]].
+    set (I' := mk_interp P' s' (zip_params (a_params a) args)).
+    pose proof (mk_irel fk P P' Ho Hi s s' (zip_params (a_params a) args) Hs) as HR. fold I' in HR.
+    destruct (gdef_B P s phi Hgf (Gdef s Gs)) as [ps Bps].
+    assert (Eps : holds false (mk_interp P s []) phi = ps) by (apply B_holds; exact Bps).
+    destruct (gdef_B P s psi Hgf2 (Gdef2 s Gs)) as [qs Bqs].
+    assert (Eqs : holds false (mk_interp P s []) psi = qs) by (apply B_holds; exact Bqs).
+    assert (EI : mk_interp P s (zip_params (a_params a) args) = mk_interp P s []) by (rewrite Hpa; reflexivity).
+    set (a' := {| a_params := a_params a; a_pre := pres; a_effs := a_effs a ++ E |}).
+    assert (HXp : exists X, all_hold false I' pres = all_hold false I' (a_pre a) && X /\
+               forall t, spec_step false P s a args = Some t -> X = (negb (holds false (mk_interp P t []) phi) || m)).
+    { destruct Hpres as [[-> Hreason] | ->].
+      - exists true. split; [rewrite andb_true_r; reflexivity|]. intros t Hst.
+        assert (Ept : holds false (mk_interp P t []) phi = ps).
+        { destruct Hreason as [Hirr | Heq].
+          - rewrite <- Eps. apply (K2a t aid a args Gs Hlk Hst phi (or_introl eq_refl)). apply (irrelevant_parts a Hirr).
+          - pose proof (HK1 t Hgf Hgb Gdef Gs Hlk Hst) as Hk. rewrite Heq in Hk. unfold B in Bps. rewrite Bps in Hk. inversion Hk. reflexivity. }
+        rewrite Ept. destruct ps; [rewrite (Hinv2 Eps); reflexivity | reflexivity].
+      - exists (holds false I' (rho_sb a)). split; [apply all_hold_add_pre|]. intros t Hst.
+        unfold rho_sb. unfold holds at 1. rewrite Hsmp.
+        assert (B1 : B I' (R smp a phi) (holds false (mk_interp P t []) phi)).
+        { unfold B. rewrite (eval_cleanf fk false _ _ _ HR HcR), EI. apply HK1; assumption. }
+        assert (B2 : B I' (EFluent fk []) m).
+        { unfold B. rewrite eval_EFluent. cbn [evals]. unfold I'. cbn [mk_interp fl]. exact Hm. }
+        pose proof (B_mkOr I' _ _ (Forall2_cons _ _ (B_mkNot _ _ _ B1) (Forall2_cons _ _ B2 (Forall2_nil _)))) as Bo.
+        unfold B in Bo. rewrite Bo. cbn [existsb]. rewrite orb_false_r.
+        destruct (negb (holds false (mk_interp P t []) phi) || m); reflexivity. }
+    assert (HFp : exists fire,
+      fired false I' (a_effs a ++ E) =
+        match collect_res (eres_list false I' (a_effs a)) with
+        | Some acts => match fire with Some true => Some (acts ++ [xact fk true]) | Some false => Some acts | None => None end
+        | None => None end /\
+      forall t, spec_step false P s a args = Some t ->
+        fire = Some (holds false (mk_interp P t []) psi) \/
+        (fire = Some false /\ (holds false (mk_interp P t []) psi = true -> m = true))).
+    { destruct HEf as [[-> Hreason] | ->].
+      - exists (Some false). split; [apply fired_plain|]. intros t Hst. right. split; [reflexivity|]. intros Ht.
+        destruct Hreason as [Hirr | [Heq | Hfalse]].
+        + apply Hinv1. rewrite <- Ht. symmetry. apply (K2b t aid a args Gs Hlk Hst psi (or_introl eq_refl)). apply (irrelevant_parts a Hirr).
+        + apply Hinv1. pose proof (HK2 t Hgf2 Hgb2 Gdef2 Gs Hlk Hst) as Hk. rewrite Heq in Hk. unfold holds. rewrite Hk, Ht. reflexivity.
+        + exfalso. pose proof (HK2 t Hgf2 Hgb2 Gdef2 Gs Hlk Hst) as Hk. rewrite <- (Hsmp (R smp a psi)) in Hk.
+          destruct (smp (R smp a psi)); try discriminate. destruct b; try discriminate. cbn [eval] in Hk. rewrite Ht in Hk. discriminate.
+      - exists (fire_of (eval false (R smp a psi) I')). split; [apply fired_meff|]. intros t Hst. left.
+        rewrite (eval_cleanf fk false _ _ _ HR HcR2), EI, (HK2 t Hgf2 Hgb2 Gdef2 Gs Hlk Hst).
+        destruct (holds false (mk_interp P t []) psi); reflexivity. }
+    destruct HXp as (X & HpX & HXsem). destruct HFp as (fire & HfX & Hfsem).
+    pose proof (step_with2 fk P P' Ho Hi Hfl Hv Hfi a a' args s s' X fire Hs Hca eq_refl HpX HfX) as Hst.
+    destruct (spec_step false P s a args) as [t|] eqn:Est.
+    - pose proof (HXsem t eq_refl) as HXe. pose proof (Hfsem t eq_refl) as Hfire.
+      destruct (existsb is_false pres) eqn:Efp.
+      { rewrite <- HXe. apply existsb_exists in Efp. destruct Efp as [x [Hx Fx]].
+        assert (Hnp : all_hold false I' pres = false).
+        { destruct (all_hold false I' pres) eqn:Eh; [|reflexivity].
+          pose proof (all_hold_In false _ _ x Eh Hx) as Hxx. destruct x; try discriminate. destruct b; discriminate. }
+        rewrite HpX in Hnp.
+        assert (Hpre : all_hold false I' (a_pre a) = true).
+        { unfold action_cleanf in Hca. apply andb_true_iff in Hca. destruct Hca as [Hc1 _].
+          rewrite (all_hold_cleanf fk false _ _ (a_pre a) HR Hc1). rewrite spec_step_eq in Est.
+          destruct (all_hold false (mk_interp P s (zip_params (a_params a) args)) (a_pre a)); [reflexivity | discriminate]. }
+        rewrite Hpre in Hnp. exact Hnp. }
+      fold a'. destruct (spec_step false P' s' a' args) as [t'|].
+      + destruct Hst as (HX1 & Hag & Hfk). rewrite <- HXe. split; [exact HX1|]. split; [exact Hag|].
+        destruct Hfire as [-> | [-> Him]].
+        * destruct (holds false (mk_interp P t []) psi); [rewrite Hfk, orb_true_r; reflexivity | rewrite Hfk, Hm, orb_false_r; reflexivity].
+        * rewrite Hfk, Hm. destruct (holds false (mk_interp P t []) psi); [rewrite (Him eq_refl); reflexivity | rewrite orb_false_r; reflexivity].
+      + rewrite <- HXe. destruct Hst as [HX0 | Hn]; [exact HX0|].
+        destruct Hfire as [Hf | [Hf _]]; rewrite Hf in Hn; discriminate.
+    - destruct (existsb is_false pres); [exact I|]. fold a'. exact Hst.
+  Qed.
+
+  Lemma lookup_none_sb aid : lookup_action P aid = None -> lookup_action P' aid = None.
+  Proof.
+    intros H. destruct P'_eq_sb as (_ & _ & _ & _ & Ha & _). unfold lookup_action in *.
+    rewrite Ha, (lookup_map_actions _ _ _ Huniq), H. reflexivity.
+  Qed.
+
+  Lemma run_sb pi : forall s s' m, G s -> agree_off fk s s' -> s' fk [] = Some (VBool m) ->
+    (holds false (mk_interp P s []) psi = true -> m = true) ->
+    (holds false (mk_interp P s []) phi = true -> m = true) ->
+    match run P (spec_step false P) s pi, run P' (spec_step false P') s' pi with
+    | Some t, Some t' => sb_chk P phi psi m s pi = true /\ agree_off fk t t'
+    | Some t, None => sb_chk P phi psi m s pi = false
+    | None, None => True
+    | None, Some _ => False
+    end.
+  Proof.
+    induction pi as [|[aid args] r IH]; intros s s' m Gs Hs Hm Hinv1 Hinv2.
+    - cbn [run sb_chk]. split; [reflexivity | exact Hs].
+    - cbn [run sb_chk].
+      destruct (lookup_action P aid) as [a|] eqn:Hlk; [|rewrite (lookup_none_sb aid Hlk); exact I].
+      pose proof (step_sb s s' aid a args m Gs Hs Hm Hinv1 Hinv2 Hlk) as Hst.
+      destruct (spec_step false P s a args) as [t|] eqn:Est.
+      + destruct (lookup_action P' aid) as [a'|].
+        * destruct (spec_step false P' s' a' args) as [t'|].
+          -- destruct Hst as (Hc & H1 & H2). rewrite Hc. cbn [andb].
+             assert (Hi1 : holds false (mk_interp P t []) psi = true -> m || holds false (mk_interp P t []) psi = true)
+               by (intros ->; apply orb_true_r).
+             assert (Hi2 : holds false (mk_interp P t []) phi = true -> m || holds false (mk_interp P t []) psi = true).
+             { intros Hp. rewrite Hp in Hc. cbn [negb orb] in Hc. rewrite Hc. reflexivity. }
+             exact (IH t t' _ (Gstep s aid a args t Gs Hlk Est) H1 H2 Hi1 Hi2).
+          -- rewrite Hst. cbn [andb]. destruct (run P (spec_step false P) t r); [reflexivity | exact I].
+        * rewrite Hst. cbn [andb]. destruct (run P (spec_step false P) t r); [reflexivity | exact I].
+      + destruct (lookup_action P' aid) as [a'|]; [|exact I]. destruct (spec_step false P' s' a' args); [destruct Hst | exact I].
+  Qed.
+
+  Lemma goals_sb t t' : agree_off fk t t' -> goals_hold false P' t' = goals_hold false P t.
+  Proof.
+    intros Ht. destruct P'_eq_sb as (Ho & Hi & _ & _ & _ & Hg). destruct (fresh_parts_sb phi Hfresh) as (_ & _ & Hfg & _).
+    unfold goals_hold. rewrite Hg. unfold add_goals. cbn [filter].
+    assert (E : holds false (mk_interp P' t' []) (smp (mkAnd (p_goals P ++ [EBool true]))) =
+                all_hold false (mk_interp P t []) (p_goals P)).
+    { unfold holds at 1. rewrite Hsmp. fold (holds false (mk_interp P' t' []) (mkAnd (p_goals P ++ [EBool true]))).
+      rewrite holds_mkAnd. unfold all_hold at 1. rewrite forallb_app. cbn [forallb holds eval]. rewrite andb_true_r.
+      fold (all_hold false (mk_interp P' t' []) (p_goals P)).
+      apply (all_hold_cleanf fk false _ _ (p_goals P) (mk_irel fk P P' Ho Hi t t' [] Ht) Hfg). }
+    destruct (is_true (smp (mkAnd (p_goals P ++ [EBool true])))) eqn:Et; cbn [negb].
+    - rewrite <- E, (holds_true false _ _ Et). reflexivity.
+    - unfold all_hold at 1. cbn [forallb]. rewrite andb_true_r. exact E.
+  Qed.
+
+  (* PLAN LEVEL, one `sometime-before phi psi` (phi false initially: otherwise the compiler refuses the problem) *)
+  Theorem tcr_sb_plan s0 s0' pi : G s0 -> agree_off fk s0 s0' ->
+    s0' fk [] = Some (VBool (holds false (mk_interp P s0 []) psi)) ->
+    holds false (mk_interp P s0 []) phi = false ->
+    valid_plan false P' s0' pi =
+    valid_plan false P s0 pi && sb_chk P phi psi (holds false (mk_interp P s0 []) psi) s0 pi.
+  Proof.
+    intros G0 H0 Hm Hphi0. unfold valid_plan.
+    assert (Hi2 : holds false (mk_interp P s0 []) phi = true -> holds false (mk_interp P s0 []) psi = true)
+      by (rewrite Hphi0; discriminate).
+    pose proof (run_sb pi s0 s0' _ G0 H0 Hm (fun H => H) Hi2) as HR.
+    destruct (run P (spec_step false P) s0 pi) as [t|], (run P' (spec_step false P') s0' pi) as [t'|].
+    - destruct HR as [Hc Hag]. rewrite Hc, andb_true_r. apply goals_sb, Hag.
+    - rewrite HR, andb_false_r. reflexivity.
+    - destruct HR.
+    - reflexivity.
+  Qed.
+End SbPlan.
